@@ -80,3 +80,50 @@ static FNS: [(fn(char) -> bool, &str); 20] = [
         "XID_CONTINUE",
     ),
 ];
+
+/// Verification hook: runs `generate_char_fn_ranges` on predicates described by boundary lists
+/// (the predicate is true on `[b0, b1)`, `[b2, b3)`, ...), one list per line of
+/// `$LEXGEN_VERIF_CMDS`; a line `REAL <name>` runs it on the real predicate with that table name.
+#[cfg(all(test, lexgen_verif))]
+mod verif_driver {
+    use super::*;
+    use std::fmt::Write as _;
+    use std::sync::Mutex;
+
+    static BOUNDS: Mutex<Vec<u32>> = Mutex::new(Vec::new());
+
+    fn pred(c: char) -> bool {
+        let bounds = BOUNDS.lock().unwrap();
+        let n = bounds.partition_point(|b| *b <= c as u32);
+        n % 2 == 1
+    }
+
+    #[test]
+    fn verif_driver() {
+        let cmds = match std::env::var_os("LEXGEN_VERIF_CMDS") {
+            None => return,
+            Some(path) => std::fs::read_to_string(path).unwrap(),
+        };
+        let out_path = std::env::var_os("LEXGEN_VERIF_OUT").unwrap();
+        let mut out = String::new();
+        for line in cmds.lines() {
+            let ranges = if let Some(name) = line.strip_prefix("REAL ") {
+                let f = FNS.iter().find(|(_, n)| *n == name.trim()).unwrap().0;
+                generate_char_fn_ranges(f)
+            } else {
+                let mut bounds: Vec<u32> = line
+                    .split_whitespace()
+                    .map(|x| x.parse().unwrap())
+                    .collect();
+                bounds.sort_unstable();
+                *BOUNDS.lock().unwrap() = bounds;
+                generate_char_fn_ranges(pred)
+            };
+            for (a, b) in ranges {
+                write!(out, "[{} {}]", a, b).unwrap();
+            }
+            out.push('\n');
+        }
+        std::fs::write(out_path, out).unwrap();
+    }
+}
